@@ -51,8 +51,10 @@ impl Prop for C02 {
         let e = if phase == 0 {
             forced_tree(&mut g, idx)
         } else {
-            let depth = 1 + g.r.usize(7);
-            let mut budget = 40;
+            // thorough: a tenth of the trees are deeper / larger than the quick tier ever builds
+            let deep = ctx.tier == Tier::Thorough && idx % 10 == 0;
+            let depth = 1 + g.r.usize(if deep { 11 } else { 7 });
+            let mut budget = if deep { 90 } else { 40 };
             g.tree(depth, &mut budget).0
         };
         let mut specs = g.leaves.clone();
